@@ -49,7 +49,7 @@ func (c09) Thresholds(tier string) map[string]int64 {
 		"executions-in-fresh-processes": 4500,
 		"fresh-processes-spawned":       90,
 		"unrelated-runners-run-before":  5000,
-		"traces-with>=3-draw-sites":     800,
+		"traces-with>=3-draw-sites":     500,
 		"seed:long-overflowing":         150,
 		"seed:all-zeros":                60,
 		"seed:single-character":         60,
